@@ -34,7 +34,36 @@ var selCoq = map[string]string{"own": "DOwn", "other": "DOther", "system": "DSys
 var selDB = map[string]string{"own": dbOwn, "other": dbOther, "system": dbSystem, "none": ""}
 
 var hdrCoq = map[string]string{"none": "HNone", "sess": "HSess", "tok": "HTok", "tok2": "HTok2"}
-var stateCoq = map[string]string{"none": "SValid", "valid": "SValid", "expired": "SExpired", "deact": "SDeact", "reperm": "SReperm"}
+var stateCoq = map[string]string{"none": "SValid", "valid": "SValid", "expired": "SExpired", "deact": "SDeact", "reperm": "SReperm",
+	"lowered": "SLowered", "raised": "SRaised"}
+
+// ChangePermission(GRANT) REPLACES the permission on the database: the next lower / higher level
+var lowerKind = map[string]string{"adm": "rw", "rw": "ro"}
+var higherKind = map[string]string{"none": "ro", "ro": "rw", "rw": "adm"}
+
+// the permissions the user holds NOW, after the event that the state names
+func kindNow(kind, state string) string {
+	if kind == "sys" {
+		return kind
+	}
+	switch state {
+	case "reperm":
+		return "none"
+	case "lowered":
+		if k, ok := lowerKind[kind]; ok {
+			return k
+		}
+	case "raised":
+		if k, ok := higherKind[kind]; ok {
+			return k
+		}
+	}
+	return kind
+}
+
+func permChanged(state string) bool { return state == "reperm" || state == "lowered" || state == "raised" }
+
+const groupSize = 31
 
 const victimUser = "c18victims"
 
@@ -111,7 +140,9 @@ type matrix struct {
 	emit     func(term string, js map[string]any, bucket string, nontrivial bool)
 	e        *env
 	ds       []driver
-	only     string // replay: "svc/rpc" filter
+	only     map[string]bool // replay: "svc/rpc" filter
+	single   bool            // replay: one Coq case per cell
+	outcomes map[string]int
 	cells    int
 	skipped  map[string]int
 	texts    map[string]int // distinct (class, status text) with counts, for the evidence
@@ -148,8 +179,8 @@ func (m *matrix) oracle(d *driver, c *cred, state, tgtSel string, through bool, 
 	credOK := c.hdr != "none" && state == "valid"
 	sys := c.kind == "sys"
 	pSel, pTgt := m.permOn(c.kind, c.effSel), m.permOn(c.kind, tgtSel)
-	if d.class == clCred && state == "reperm" && !sys {
-		pTgt = auth.PermissionNone // Login/OpenSession authenticate afresh: the permission is revoked by now
+	if d.class == clCred {
+		pTgt = m.permOn(kindNow(c.kind, state), tgtSel) // Login/OpenSession authenticate afresh: permissions as of now
 	}
 	atLeastR := func(p uint32) bool { return p != auth.PermissionNone }
 	rw := func(p uint32) bool {
@@ -234,7 +265,7 @@ func (m *matrix) oracle(d *driver, c *cred, state, tgtSel string, through bool, 
 			why += fmt.Sprintf("; database %s got a new transaction", db)
 		}
 	}
-	if why != "" && tag == "" && !credOK && c.hdr == "tok2" && (state == "deact" || state == "reperm") {
+	if why != "" && tag == "" && !credOK && c.hdr == "tok2" && (state == "deact" || permChanged(state)) {
 		tag = "stale"
 	}
 	return why, tag
@@ -258,9 +289,30 @@ func (m *matrix) runContext(cfg cfgKind, c *cred, state string) {
 	if tgtSel == "none" {
 		tgtSel = "own"
 	}
+	var terms []string
+	var recs []map[string]any
+	gHdr, gSel := c.hdr, c.effSel
+	flush := func() {
+		if len(terms) == 0 {
+			return
+		}
+		viol := false
+		for _, x := range recs {
+			if x["violates"].(bool) {
+				viol = true
+			}
+		}
+		m.emit(fmt.Sprintf("CCtx %s %s %s %s %s %s [%s]", cfgCoq[cfg], kindCoq[c.kind], hdrCoq[gHdr], selCoq[gSel], selCoq[tgtSel], stateCoq[state], strings.Join(terms, "; ")),
+			map[string]any{"kind": "ctx", "cfg": cfgCoq[cfg], "mech": c.mech, "user_kind": c.kind, "user": kindUser[c.kind],
+				"sel_requested": c.selReq, "sel_effective": gSel, "credential": gHdr, "named_db": selDB[tgtSel], "state": state,
+				"cells": recs, "violates": viol},
+			fmt.Sprintf("%s/%s", cfgCoq[cfg], state), true)
+		terms, recs = nil, nil
+	}
+	defer flush()
 	for i := range m.ds {
 		d := &m.ds[i]
-		if m.only != "" && m.only != d.svc+"/"+d.name {
+		if m.only != nil && !m.only[d.svc+"/"+d.name] {
 			continue
 		}
 		if tgtSel == "system" && (d.name == "CreateUser" || d.name == "ChangeSQLPrivileges") {
@@ -336,15 +388,25 @@ func (m *matrix) runContext(cfg cfgKind, c *cred, state string) {
 			}
 			m.vioCount[key]++
 		}
-		st := state
-		term := fmt.Sprintf("CCell %q %q %s %s %s %s %s %s %s", d.svc, d.name, cfgCoq[cfg], kindCoq[c.kind], hdrCoq[c.hdr],
-			selCoq[c.effSel], selCoq[tgtSel], stateCoq[st], vk.Bool(through))
-		m.emit(term, map[string]any{"kind": "cell", "cfg": cfgCoq[cfg], "mech": c.mech, "user_kind": c.kind, "user": kindUser[c.kind],
-			"sel_requested": c.selReq, "sel_effective": c.effSel, "credential": c.hdr, "named_db": cl.tgt, "state": state,
-			"svc": d.svc, "rpc": d.name, "class": classNames[d.class], "outcome": class, "status": text, "changed": changed,
-			"violates": why != "", "why": why},
-			fmt.Sprintf("%s/%s/%s", cfgCoq[cfg], state, class), true)
+		m.outcomes[fmt.Sprintf("cells %s/%s/%s", cfgCoq[cfg], state, class)]++
 		m.cells++
+		if m.single {
+			term := fmt.Sprintf("CCell %q %q %s %s %s %s %s %s %s", d.svc, d.name, cfgCoq[cfg], kindCoq[c.kind], hdrCoq[c.hdr],
+				selCoq[c.effSel], selCoq[tgtSel], stateCoq[state], vk.Bool(through))
+			m.emit(term, map[string]any{"kind": "cell", "cfg": cfgCoq[cfg], "mech": c.mech, "user_kind": c.kind, "user": kindUser[c.kind],
+				"sel_requested": c.selReq, "sel_effective": c.effSel, "credential": c.hdr, "named_db": cl.tgt, "state": state,
+				"svc": d.svc, "rpc": d.name, "class": classNames[d.class], "outcome": class, "status": text, "changed": changed,
+				"violates": why != "", "why": why},
+				fmt.Sprintf("%s/%s", cfgCoq[cfg], state), true)
+			continue
+		}
+		if c.hdr != gHdr || c.effSel != gSel || len(terms) >= groupSize {
+			flush()
+			gHdr, gSel = c.hdr, c.effSel
+		}
+		terms = append(terms, fmt.Sprintf("(%q, %q, %s)", d.svc, d.name, vk.Bool(through)))
+		recs = append(recs, map[string]any{"svc": d.svc, "rpc": d.name, "class": classNames[d.class], "outcome": class, "status": text,
+			"changed": changed, "violates": why != "", "why": why})
 	}
 }
 
@@ -384,6 +446,16 @@ func (m *matrix) invalidate(state, kind string, undo bool) {
 		m.setActive(user, undo)
 	case "reperm": // the user's permission on the own database is revoked (undo: granted again)
 		m.changePerm(user, undo, dbOwn, kindPerm[kind])
+	case "lowered", "raised": // ... replaced by a GRANT of the next lower / higher level (undo: the original one)
+		now := kindNow(kind, state)
+		switch {
+		case !undo:
+			m.changePerm(user, true, dbOwn, kindPerm[now])
+		case kind == "none":
+			m.changePerm(user, false, dbOwn, kindPerm[now])
+		default:
+			m.changePerm(user, true, dbOwn, kindPerm[kind])
+		}
 	}
 }
 
@@ -399,21 +471,24 @@ type item struct {
 // plan lists the whole matrix
 func plan() []item {
 	var out []item
-	for _, state := range []string{"expired", "none", "valid", "deact", "reperm"} {
+	for _, state := range []string{"expired", "none", "valid", "deact", "reperm", "lowered", "raised"} {
 		mechs := []string{"sess", "tok"}
 		switch state {
 		case "none":
 			mechs = []string{"none"}
-		case "deact", "reperm":
+		case "deact", "reperm", "lowered":
 			mechs = []string{"sess", "tok", "tok2"}
 		}
 		for _, mech := range mechs {
 			for _, k := range kinds {
-				if k == "sys" && (state == "deact" || state == "reperm") {
+				if k == "sys" && (state == "deact" || permChanged(state)) {
 					continue // the sysadmin can be neither deactivated nor re-permissioned
 				}
 				if k == "none" && state == "reperm" {
 					continue // nothing to revoke
+				}
+				if state == "lowered" && lowerKind[k] == "" || state == "raised" && higherKind[k] == "" {
+					continue // no lower / higher level to grant
 				}
 				for _, s := range sels {
 					if mech == "sess" && s == "none" {
@@ -474,7 +549,7 @@ func (m *matrix) runAuthItems(items []item) {
 			c := e.obtain(it.Mech, it.Kind, it.Sel)
 			m.runContext(cfgAuth, c, "valid")
 			e.release(c)
-		case "deact", "reperm":
+		case "deact", "reperm", "lowered", "raised":
 			c := e.obtain(it.Mech, it.Kind, it.Sel)
 			m.invalidate(it.State, it.Kind, false)
 			m.runContext(cfgAuth, c, it.State)
@@ -572,6 +647,7 @@ type agg struct {
 	VioFirst map[string]string `json:"vio_first"`
 	VioCount map[string]int    `json:"vio_count"`
 	VioOrder []string          `json:"vio_order"`
+	Outcomes map[string]int    `json:"outcomes"`
 }
 
 func keys(m map[string]bool) []string {
@@ -586,7 +662,7 @@ func keys(m map[string]bool) []string {
 func (m *matrix) aggregate() agg {
 	return agg{Cells: m.cells, Rebuilt: m.rebuilt, Skipped: m.skipped, Texts: m.texts, SysPaths: keys(m.sysPaths),
 		SysWrote: keys(m.sysWrote), Stale: m.stale, StaleW: m.staleW, Other: m.other,
-		VioFirst: m.vioFirst, VioCount: m.vioCount, VioOrder: m.vioOrder}
+		VioFirst: m.vioFirst, VioCount: m.vioCount, VioOrder: m.vioOrder, Outcomes: m.outcomes}
 }
 
 func (m *matrix) absorb(a agg) {
@@ -607,6 +683,9 @@ func (m *matrix) absorb(a agg) {
 	m.stale += a.Stale
 	m.staleW += a.StaleW
 	m.other = append(m.other, a.Other...)
+	for k, v := range a.Outcomes {
+		m.outcomes[k] += v
+	}
 	for _, k := range a.VioOrder {
 		if m.vioCount[k] == 0 {
 			m.vioFirst[k] = a.VioFirst[k]
@@ -725,6 +804,9 @@ func (m *matrix) report(r *vk.Run) {
 	}
 	sort.Strings(ts)
 	os.WriteFile(r.Dir+"/status_texts.txt", []byte(strings.Join(ts, "\n")+"\n"), 0o644)
+	for k, v := range m.outcomes {
+		r.Stats[k] = v
+	}
 	r.Stats["_cells_total"] = m.cells
 	r.Stats["_credentials_reissued"] = m.rebuilt
 	for k, n := range m.skipped {
@@ -734,7 +816,7 @@ func (m *matrix) report(r *vk.Run) {
 
 func newMatrix() *matrix {
 	return &matrix{ds: ordered(drivers()), skipped: map[string]int{}, texts: map[string]int{},
-		sysPaths: map[string]bool{}, sysWrote: map[string]bool{}, vioFirst: map[string]string{}, vioCount: map[string]int{}}
+		sysPaths: map[string]bool{}, sysWrote: map[string]bool{}, vioFirst: map[string]string{}, vioCount: map[string]int{}, outcomes: map[string]int{}}
 }
 
 func workers() int {
@@ -811,15 +893,29 @@ func Gen(r *vk.Run, n int) error {
 	return nil
 }
 
-// Replay re-runs the single cell stored in a replay file (in this process).
+// Replay re-runs, in this process and with one Coq case per cell, the cell or the group of cells
+// stored in a replay file.
 func Replay(r *vk.Run, c map[string]any) error {
 	s := func(k string) string { v, _ := c[k].(string); return v }
-	if s("kind") != "cell" {
-		return Gen(r, 0)
-	}
 	m := newMatrix()
 	m.emit = r.Case
-	m.only = s("svc") + "/" + s("rpc")
+	m.single = true
+	m.only = map[string]bool{}
+	switch s("kind") {
+	case "cell":
+		m.only[s("svc")+"/"+s("rpc")] = true
+	case "ctx":
+		cells, _ := c["cells"].([]any)
+		for _, x := range cells {
+			if cm, ok := x.(map[string]any); ok {
+				sv, _ := cm["svc"].(string)
+				rp, _ := cm["rpc"].(string)
+				m.only[sv+"/"+rp] = true
+			}
+		}
+	default:
+		return Gen(r, 0)
+	}
 	if err := m.execute([]item{{Cfg: s("cfg"), State: s("state"), Mech: s("mech"), Kind: s("user_kind"), Sel: s("sel_requested")}}); err != nil {
 		return err
 	}
